@@ -86,6 +86,29 @@ def coqc_capture(vfile, timeout=600):
     return r.returncode == 0, r.stdout + r.stderr
 
 
+def coqchk(vfile, timeout=1500):
+    """Re-check the compiled theorem file and everything it depends on with Coq's independent checker.
+    -> (status, axioms, tail) with status in ok | timeout | failed.  No build lock: it only reads .vo files."""
+    vo = vfile[:-2] + ".vo"
+    try:
+        r = subprocess.run(["coqchk", "-silent", "-o", "-R", ".", "Pose", vo], cwd=COQ, capture_output=True, text=True, timeout=timeout)
+    except subprocess.TimeoutExpired:
+        return "timeout", [], "coqchk did not finish within %d s" % timeout
+    out = r.stdout + r.stderr
+    axioms = []
+    if "* Axioms:" in out:
+        sec = out.split("* Axioms:", 1)[1].split("* Constants/Inductives relying on type-in-type", 1)[0]
+        axioms = [l.strip() for l in sec.splitlines() if l.strip() and l.strip() != "<none>"]
+    flags = []
+    for key in ("relying on type-in-type:", "relying on unsafe (co)fixpoints:", "whose positivity is assumed:"):
+        if key in out:
+            first = out.split(key, 1)[1].strip().splitlines()[0].strip() if out.split(key, 1)[1].strip() else ""
+            if first and first != "<none>":
+                flags.append(key + " " + first)
+    status = "ok" if r.returncode == 0 and not flags else "failed"
+    return status, axioms, (out[-1500:] if status != "ok" else "; ".join(flags))
+
+
 def build_runner(name, floats=False, timeout=900):
     """Extract coq/extract/X_<name>.v and compile runner/build/<name>/runner. Returns its path."""
     bdir = os.path.join(RUNNER, "build", name)
